@@ -12,14 +12,14 @@
 static const char *base, *prefix; static int rounds; static unsigned seed;
 static PSemaphore *hs[4]; static volatile int phase1, phase2, done_cnt; static int inits[4];
 static void keyof (int n, char *out) {         /* '/' + first 13 hex digits of SHA-1 (name + "_p_sem_object"): the documented derivation */
-	char full[256]; PCryptoHash *h = p_crypto_hash_new (P_CRYPTO_HASH_TYPE_SHA1); pchar *s;
+	char full[800]; PCryptoHash *h = p_crypto_hash_new (P_CRYPTO_HASH_TYPE_SHA1); pchar *s;
 	snprintf (full, sizeof full, "%s_%d_p_sem_object", prefix, n);
 	p_crypto_hash_update (h, (const puchar *) full, strlen (full)); s = p_crypto_hash_get_string (h);
 	snprintf (out, 32, "/%.13s", s); p_free (s); p_crypto_hash_free (h);
 }
 static int rawval (int n) { char k[32]; sem_t *r; int v = -2; keyof (n, k); r = sem_open (k, 0); if (r != SEM_FAILED) { sem_getvalue (r, &v); sem_close (r); } return v; }
 static void *creator (void *arg) {
-	int t = (int) (long) arg, r; char nm[200];
+	int t = (int) (long) arg, r; char nm[640];
 	vtm_open (base, t);
 	snprintf (nm, sizeof nm, "%s_%d", prefix, t);
 	for (r = 1; r <= rounds; r++) {
@@ -38,7 +38,7 @@ static void *creator (void *arg) {
 	return NULL;
 }
 int main (int argc, char **argv) {
-	pthread_t th[4]; int t, r; char nm[200];
+	pthread_t th[4]; int t, r; char nm[640];
 	if (argc < 5) return 2;
 	base = argv[1]; prefix = argv[2]; rounds = atoi (argv[3]); seed = (unsigned) atoi (argv[4]);
 	vtm_init (4); p_libsys_init (); vtm_open (base, 0);
